@@ -152,9 +152,15 @@ func driveC07(o opts) error {
 	if o.n > 0 {
 		ncases = o.n
 	}
-	sc := c02Schema()
-	sc.Name = "C07"
-	for ci := 0; ci < ncases; ci++ {
+	scBase := c02Schema()
+	scBase.Name = "C07"
+	// after the regular cases: cascade cases (c07chain.go), a quarter as many
+	for ci := 0; ci < ncases+(ncases+3)/4; ci++ {
+		cascade := ci >= ncases
+		sc := scBase
+		if cascade {
+			sc = cascadeSchema("C07")
+		}
 		lab, err := newSrvLab(sc, o.out)
 		if err != nil {
 			return err
@@ -164,6 +170,9 @@ func driveC07(o opts) error {
 			return err
 		}
 		nt := 2 + g.Intn(ntxn-1)
+		if cascade && nt < 4 {
+			nt = 4
+		}
 		// monitors
 		nm := 1 + g.Intn(3)
 		var mons []*monSpec
@@ -213,7 +222,7 @@ func driveC07(o opts) error {
 		}
 		// a third of the cases: one monitor follows exactly one kind of change on every table, and the history ends with
 		// the life of a parent and its child: inserted, changed, deleted (the child by garbage collection)
-		lifecycle := g.Chance(0.35)
+		lifecycle := g.Chance(0.35) && !cascade
 		if lifecycle {
 			m := mons[0]
 			m.req = map[string]monReq{}
@@ -231,6 +240,10 @@ func driveC07(o opts) error {
 		st, refs, _ := lab.state()
 		tg.state = st
 		_ = refs
+		if cascade {
+			tg.custom, tg.pCustom = c04ChainTxn, 0.5
+			w.Count("cascade cases")
+		}
 		oracle := ""
 		fail := func(format string, a ...interface{}) {
 			if oracle == "" {
@@ -346,6 +359,11 @@ func driveC07(o opts) error {
 			if ti == 0 && g.Chance(0.6) {
 				// a populated database: parents with children, weak references in a set and in an optional column of one row
 				ops = c02Seed(tg)
+			}
+			if cascade && ti == 0 {
+				ops = cascadeSeed(tg)
+			} else if cascade && ti == 1+ci%2 {
+				ops = cascadeRelease(tg, ci/2)
 			}
 			if lifecycle && ti >= nt-3 {
 				switch ti - (nt - 3) {
@@ -662,7 +680,7 @@ func driveC07(o opts) error {
 		}
 		// a monitor set up while a transaction is between notifying the monitors and committing
 		// must learn of that transaction (in its initial contents or by a notification)
-		if g.Chance(0.4) {
+		if g.Chance(0.4) && !cascade {
 			if msg := c07RacingSetup(lab, writer, sc, ci); msg != "" {
 				fail("%s", msg)
 			}
@@ -674,7 +692,7 @@ func driveC07(o opts) error {
 		w.Add(emit.Case{Term: term, JSON: map[string]interface{}{"monitors": monJ, "transactions": txnJ}, Key: term,
 			Nontrivial: nontrivial, Class: fmt.Sprintf("mons%d", nm), Oracle: oracle})
 	}
-	if err := c07EmptyColumns(o, sc, w); err != nil {
+	if err := c07EmptyColumns(o, scBase, w); err != nil {
 		return err
 	}
 	return w.Flush()
